@@ -44,6 +44,26 @@ def oracle(inp):
   return r
 
 
+def bounds(model, scale):
+  """reference posterior of the model `model` states (mean, unfloored variance, covariance) with the justified bounds of oracle_reading: forward error of
+  the Cholesky solves (eps * cond), first-order effect of the kernel-entry rounding, forward error of the GLS coefficient solve"""
+  rm, rv, rc, cond = gpgen.reference_posterior(model)
+  ex, dk = gpgen.reference_posterior.extra, gpgen.kernel_entry_error(model)
+  alpha = model["cov"]["hp"][0]
+  tm = (1e-14 * cond * (alpha * ex["a_l1"] + float(numpy.abs(rm).max()) + scale) + 4 * dk * ex["a_l1"] + 1e-9 * scale
+        + 1e-14 * ex["gls_cond"] * (1 + cond * 1e-6) * ex["pb_l1"])
+  tv = 1e-14 * cond * alpha * (1 + ex["card_l1"]) ** 2 + 8 * dk * ex["card_l1"] + 1e-9 * alpha
+  return rm, rv, rc, tm, tv
+
+
+def gp_life(inp):
+  """the steps of the life of the GP object after it was built: inp["history"] = [["lies", points] | ["replace", data] | ["core_copy", spec], ...];
+  inputs recorded before the histories existed carry at most one "lies" and one "replace" (in that order)"""
+  if "history" in inp:
+    return inp["history"]
+  return ([["lies", inp["lies"]]] if inp.get("lies") else []) + ([["replace", inp["replace"]]] if inp.get("replace") else [])
+
+
 def oracle_reading(inp, ref_cov):
   def fail(what, observed, expected):
     return dict(signature=f"C02:{what}", what=what, input=inp, observed=observed, expected=expected, oracle="saddle-point system, extended precision + refinement")
@@ -142,39 +162,135 @@ def oracle_reading(inp, ref_cov):
       if (numpy.abs(jgm - gm).max() > 1e-9 * gs or numpy.abs(s.compute_grad_mean_of_points(xs) - gm).max() > 1e-9 * gs
           or numpy.abs(s.compute_grad_variance_of_points(xs) - gv).max() > 1e-9 * gs):
         return fail("sum of GPs: gradient entry points are not the weighted sums of the components' gradients", jgm.tolist(), gm.tolist())
-  # appended lie data: the model must be the posterior of the extended data set
-  lies = inp.get("lies")
-  if lies:
-    gp.append_lie_data(numpy.array(lies, dtype=float))
-    worst = max(inp["values"])
-    inp4 = dict(inp, points=inp["points"] + lies, values=inp["values"] + [worst] * len(lies), noise=inp["noise"] + [1e-12] * len(lies))
-    rm4, rv4, _, cond4 = gpgen.reference_posterior(stated(inp4))
-    ex4, dk4 = gpgen.reference_posterior.extra, gpgen.kernel_entry_error(stated(inp4))   # the same justified bound as tol_m, for the extended data set
-    t4 = (1e-14 * cond4 * (alpha * ex4["a_l1"] + float(numpy.abs(rm4).max()) + scale) + 4 * dk4 * ex4["a_l1"] + 1e-9 * scale + tol_m
-          + 1e-14 * ex4["gls_cond"] * (1 + cond4 * 1e-6) * ex4["pb_l1"])
-    if numpy.abs(gp.compute_mean_of_points(xs) - rm4).max() > t4:
-      return fail("after append_lie_data the mean is not the posterior of the extended data", gp.compute_mean_of_points(xs).tolist(), rm4.tolist())
-  # the data of a live GP replaced as a whole (update_historical_data - what append_lie_data itself ends with, and what happens when real
-  # results replace lies): the model is the posterior of the data it holds NOW, nothing of the earlier data set may survive in a cache
-  new = inp.get("replace")
-  if new:
-    from libsigopt.compute.misc.data_containers import HistoricalData
-    hd = HistoricalData(xs.shape[1])
-    hd.append_historical_data(numpy.array(new["points"], dtype=float), numpy.array(new["values"], dtype=float), numpy.array(new["noise"], dtype=float))
-    gp.update_historical_data(hd)
-    inp5 = dict(inp, points=new["points"], values=new["values"], noise=new["noise"])
-    rm5, rv5, _, cond5 = gpgen.reference_posterior(stated(inp5))
-    ex5, dk5 = gpgen.reference_posterior.extra, gpgen.kernel_entry_error(stated(inp5))   # the justified bounds of tol_m / tol_v, for the new data set
-    scale5 = max(1.0, float(numpy.abs(new["values"]).max()))
-    t5 = (1e-14 * cond5 * (alpha * ex5["a_l1"] + float(numpy.abs(rm5).max()) + scale5) + 4 * dk5 * ex5["a_l1"] + 1e-9 * scale5
-          + 1e-14 * ex5["gls_cond"] * (1 + cond5 * 1e-6) * ex5["pb_l1"])
-    tv5 = 1e-14 * cond5 * alpha * (1 + ex5["card_l1"]) ** 2 + 8 * dk5 * ex5["card_l1"] + 1e-9 * alpha
-    m5, v5 = gp.compute_mean_and_variance_of_points(xs)
-    if numpy.abs(m5 - rm5).max() > t5:
-      return fail("after update_historical_data the mean is not the posterior of the new data", m5.tolist(), rm5.tolist())
-    if numpy.abs(v5 - numpy.maximum(rv5, 1e-100)).max() > tv5:
-      return fail("after update_historical_data the variance is not the posterior variance of the new data", v5.tolist(), rv5.tolist())
+  # ---- the life of the GP object after it was built (the quantifier: "any sequence of appended lie data"; a live GP is also handed new data as a
+  # whole, and copies of its core data are taken and worked on): after EVERY step the object must be the conditional of the model it holds THEN
+  cur = dict(inp)                                       # the model the object holds now (points / values / noise change along the life)
+  for step in gp_life(inp):
+    op = step[0]
+    if op == "lies":
+      # appended lie data: the model must be the posterior of the extended data set
+      lies = step[1]
+      gp.append_lie_data(numpy.array(lies, dtype=float))
+      worst = max(cur["values"])
+      cur = dict(cur, points=cur["points"] + lies, values=cur["values"] + [worst] * len(lies), noise=cur["noise"] + [1e-12] * len(lies))
+      rm4, rv4, _, t4, tv4 = bounds(stated(cur), scale)   # the same justified bound as tol_m, for the extended data set
+      if numpy.abs(gp.compute_mean_of_points(xs) - rm4).max() > t4 + tol_m:
+        return fail("after append_lie_data the mean is not the posterior of the extended data", gp.compute_mean_of_points(xs).tolist(), rm4.tolist())
+      if numpy.abs(gp.compute_variance_of_points(xs) - numpy.maximum(rv4, 1e-100)).max() > tv4 + tol_v:
+        return fail("after append_lie_data the variance is not the posterior variance of the extended data", gp.compute_variance_of_points(xs).tolist(), rv4.tolist())
+    elif op == "replace":
+      # the data of a live GP replaced as a whole (update_historical_data - what append_lie_data itself ends with, and what happens when real
+      # results replace lies): the model is the posterior of the data it holds NOW, nothing of the earlier data set may survive in a cache -
+      # whether the new data sit elsewhere, at the SAME locations with other values / other noise variances (a re-measured campaign), or
+      # extend / shorten the old point set
+      new = step[1]
+      from libsigopt.compute.misc.data_containers import HistoricalData
+      hd = HistoricalData(xs.shape[1])
+      hd.append_historical_data(numpy.array(new["points"], dtype=float), numpy.array(new["values"], dtype=float), numpy.array(new["noise"], dtype=float))
+      gp.update_historical_data(hd)
+      cur = dict(cur, points=new["points"], values=new["values"], noise=new["noise"])
+      rm5, rv5, rc5, t5, tv5 = bounds(stated(cur), max(1.0, float(numpy.abs(new["values"]).max())))   # the justified bounds of tol_m / tol_v, for the new data set
+      m5, v5 = gp.compute_mean_and_variance_of_points(xs)
+      if numpy.abs(m5 - rm5).max() > t5:
+        return fail("after update_historical_data the mean is not the posterior of the new data", m5.tolist(), rm5.tolist())
+      if numpy.abs(v5 - numpy.maximum(rv5, 1e-100)).max() > tv5:
+        return fail("after update_historical_data the variance is not the posterior variance of the new data", v5.tolist(), rv5.tolist())
+      if numpy.abs(gp.compute_covariance_of_points(xs) - rc5).max() > tv5:
+        return fail("after update_historical_data the joint covariance is not the posterior covariance of the new data", gp.compute_covariance_of_points(xs).tolist(), rc5.tolist())
+    elif op == "core_copy":
+      # somebody takes get_core_data_copy() and works on the COPY (what a model-selection loop does): other hyperparameters of the same size on
+      # the copied kernel, possibly one more observation in the copied data, a second GP built from it.  The second GP is the conditional of ITS
+      # model, and the first one - nobody touched it - still the conditional of its own; a weighted sum of the two predicts the weighted sums
+      from libsigopt.compute.gaussian_process import GaussianProcess
+      spec = step[1]
+      cov2, hd2, idx2, tik2 = gp.get_core_data_copy()
+      cov2.hyperparameters = numpy.array(spec["hp"], dtype=float)
+      other = dict(cur, cov=dict(stated(cur)["cov"], hp=list(spec["hp"])))
+      if spec.get("append"):
+        px, py, pn = spec["append"]
+        hd2.append_historical_data(numpy.array([px], dtype=float), numpy.array([py], dtype=float), numpy.array([pn], dtype=float))
+        other = dict(other, points=cur["points"] + [px], values=cur["values"] + [py], noise=cur["noise"] + [pn])
+      gp2 = GaussianProcess(cov2, hd2, mean_poly_indices=idx2, tikhonov_param=tik2)
+      rm6, rv6, rc6, t6, tv6 = bounds(other, max(1.0, float(numpy.abs(other["values"]).max())))
+      m6, v6 = gp2.compute_mean_and_variance_of_points(xs)
+      if numpy.abs(m6 - rm6).max() > t6 or numpy.abs(v6 - numpy.maximum(rv6, 1e-100)).max() > tv6:
+        return fail("a GP built from get_core_data_copy() with other hyperparameters is not the posterior of its own model", [m6.tolist(), v6.tolist()], [rm6.tolist(), rv6.tolist()])
+      rm7, rv7, rc7, t7, tv7 = bounds(stated(cur), max(1.0, float(numpy.abs(cur["values"]).max())))
+      m7, v7 = gp.compute_mean_and_variance_of_points(xs)
+      if numpy.abs(m7 - rm7).max() > t7 + tol_m:
+        return fail("after a copy of its core data was given other hyperparameters the mean of the ORIGINAL GP is no longer the posterior of its model", m7.tolist(), rm7.tolist())
+      if numpy.abs(v7 - numpy.maximum(rv7, 1e-100)).max() > tv7 + tol_v or numpy.abs(gp.compute_covariance_of_points(xs) - rc7).max() > tv7 + tol_v:
+        return fail("after a copy of its core data was given other hyperparameters the variance / covariance of the ORIGINAL GP is no longer the posterior of its model", v7.tolist(), rv7.tolist())
+      ws = spec.get("weights")
+      if ws and not spec.get("append"):
+        from libsigopt.compute.gaussian_process_sum import GaussianProcessSum
+        s2 = GaussianProcessSum([gp, gp2], list(ws))
+        sm2, sv2 = s2.compute_mean_and_variance_of_points(xs)
+        wm = ws[0] * rm7 + ws[1] * rm6
+        wv = ws[0] ** 2 * numpy.maximum(rv7, 1e-100) + ws[1] ** 2 * numpy.maximum(rv6, 1e-100)
+        if numpy.abs(sm2 - wm).max() > abs(ws[0]) * (t7 + tol_m) + abs(ws[1]) * t6 + 1e-10 * scale:
+          return fail("sum of a GP and a GP built from its core-data copy: mean is not the weighted sum of the two closed-form posteriors", sm2.tolist(), wm.tolist())
+        if numpy.abs(sv2 - wv).max() > ws[0] ** 2 * (tv7 + tol_v) + ws[1] ** 2 * tv6 + 1e-10 * alpha:
+          return fail("sum of a GP and a GP built from its core-data copy: variance is not the squared-weight sum of the two closed-form posteriors", sv2.tolist(), wv.tolist())
+        if numpy.abs(s2.compute_covariance_of_points(xs) - (ws[0] ** 2 * rc7 + ws[1] ** 2 * rc6)).max() > ws[0] ** 2 * (tv7 + tol_v) + ws[1] ** 2 * tv6 + 1e-10 * alpha:
+          return fail("sum of a GP and a GP built from its core-data copy: covariance is not the squared-weight sum of the two closed-form posteriors", None, None)
+    else:
+      raise ValueError(f"unknown step {op!r} in the life of the GP")
   return None
+
+
+def gen_life(rng, inp):
+  """a life of the live GP object (see gp_life / oracle_reading): 1-3 steps; lie data only without a nugget (as before)"""
+  dim, terms = len(inp["points"][0]), len(inp.get("mean_idx") or [])
+  pts, vals, noise = list(inp["points"]), list(inp["values"]), list(inp["noise"])
+  shift = [0.0] * dim
+  if any(abs(v) > 100 for v in pts[0]):   # keep new points in the region the (possibly offset) inputs live in
+    shift = [pts[0][k] - (pts[0][k] % 20.0) if abs(pts[0][k]) > 100 else 0.0 for k in range(dim)]
+  def newpt():
+    return [shift[k] + (20.0 if shift[k] else 1.0) * rng.uniform(0, 1) for k in range(dim)]
+  def newnoise(k, lvl):
+    return [max(lvl, 1e-6) * rng.uniform(0.5, 2) for _ in range(k)]
+  steps, replaced = [], False
+  for _ in range(rng.choice([1, 1, 2, 2, 3])):
+    n = len(pts)
+    lvl = sum(noise) / n
+    op = rng.choice(["lies", "replace", "replace", "core_copy"])
+    if op == "lies":
+      if inp.get("tikhonov") is not None:
+        continue
+      lies = [[rng.uniform(0, 1) for _ in range(dim)] for _ in range(rng.randint(1, 2))]
+      steps.append(["lies", lies])
+      pts, vals, noise = pts + lies, vals + [max(vals)] * len(lies), noise + [1e-12] * len(lies)
+    elif op == "replace":
+      how = rng.choice(["elsewhere", "same_points", "same_points", "values_only", "grown", "shrunk"] + (["back"] if replaced else []))
+      if how == "elsewhere":         # fewer / as many / more points, elsewhere
+        n2 = max(terms + 1, n + rng.choice([-2, -1, 0, 0, 1, 2]))
+        new = dict(points=[newpt() for _ in range(n2)], values=[rng.uniform(-1, 1) for _ in range(n2)], noise=newnoise(n2, lvl))
+      elif how == "same_points":     # a second campaign at the SAME locations: other values, other noise variances (much quieter / much noisier)
+        new = dict(points=[list(p) for p in pts], values=[rng.uniform(-1, 1) for _ in range(n)], noise=newnoise(n, lvl * rng.choice([1e-2, 0.1, 10.0, 100.0, 1e3])))
+      elif how == "values_only":     # the same locations and noise variances, other values
+        new = dict(points=[list(p) for p in pts], values=[rng.uniform(-1, 1) for _ in range(n)], noise=list(noise))
+      elif how == "grown":           # the old locations first, then more; everything re-measured
+        k = rng.randint(1, 2)
+        new = dict(points=[list(p) for p in pts] + [newpt() for _ in range(k)], values=[rng.uniform(-1, 1) for _ in range(n + k)], noise=newnoise(n + k, lvl * rng.choice([0.1, 1.0, 10.0])))
+      elif how == "shrunk":          # a prefix of the old locations, re-measured
+        n2 = max(terms + 1, n - rng.randint(1, 2))
+        new = dict(points=[list(p) for p in pts[:n2]], values=[rng.uniform(-1, 1) for _ in range(n2)], noise=newnoise(n2, lvl * rng.choice([0.1, 1.0, 10.0])))
+      else:                          # back to the data set the object was built on
+        new = dict(points=[list(p) for p in inp["points"]], values=list(inp["values"]), noise=list(inp["noise"]))
+      new["how"] = how
+      steps.append(["replace", new])
+      pts, vals, noise, replaced = new["points"], new["values"], new["noise"], True
+    else:
+      hp = inp["cov"]["hp"]
+      spec = dict(hp=[v * rng.choice([0.5, 0.7, 1.5, 2.0]) * rng.uniform(0.9, 1.1) for v in hp])
+      c = rng.random()
+      if c < 0.3:
+        spec["append"] = [newpt(), rng.uniform(-1, 1), max(lvl, 1e-6) * rng.uniform(0.5, 2)]
+      elif c < 0.7:
+        spec["weights"] = [rng.uniform(0.1, 0.9), rng.choice([rng.uniform(0.1, 0.9), -0.4, 1.5])]
+      steps.append(["core_copy", spec])
+  return steps
 
 
 def gen_input(rng):
@@ -195,17 +311,8 @@ def gen_input(rng):
       inp["weights"] = [rng.choice([-2.0, 1e-16]), rng.choice([-0.3, 1e-20])]
     inp["values2"] = [rng.uniform(-1, 1) for _ in range(n)]
     inp["weights_inplace"] = rng.random() < 0.3
-  if rng.random() < 0.3 and inp.get("tikhonov") is None:
-    dim = len(inp["points"][0])
-    inp["lies"] = [[rng.uniform(0, 1) for _ in range(dim)] for _ in range(rng.randint(1, 2))]
-  if rng.random() < 0.25:    # the whole data set replaced on the live object: fewer / as many / more points, elsewhere
-    dim, n2 = len(inp["points"][0]), max(len(inp.get("mean_idx") or []) + 1, n + rng.choice([-2, -1, 0, 0, 1, 2]))
-    shift = [0.0] * dim
-    if any(abs(v) > 100 for v in inp["points"][0]):   # keep the new points in the region the (possibly offset) inputs live in
-      shift = [inp["points"][0][k] - (inp["points"][0][k] % 20.0) if abs(inp["points"][0][k]) > 100 else 0.0 for k in range(dim)]
-    lvl = sum(inp["noise"]) / n
-    inp["replace"] = dict(points=[[shift[k] + (20.0 if shift[k] else 1.0) * rng.uniform(0, 1) for k in range(dim)] for _ in range(n2)],
-                          values=[rng.uniform(-1, 1) for _ in range(n2)], noise=[max(lvl, 1e-6) * rng.uniform(0.5, 2) for _ in range(n2)])
+  if rng.random() < 0.45:
+    inp["history"] = gen_life(rng, inp)
   if rng.random() < 0.25:    # how the arrays are handed over (same numbers): Fortran order, strided view, read-only, float32 / integer dtype
     inp["xs_style"], inp["data_style"] = rng.choice(gpgen.HANDOVER_STYLES), rng.choice(gpgen.HANDOVER_STYLES)
     if inp["xs_style"] in ("float32", "int") and not inp.get("big_batch"):
@@ -256,3 +363,8 @@ LEVEL_NOTE += ("; object histories of the kernel (gpgen.make_cov) include hyperp
                "and after the GP is built")
 LEVEL_NOTE += ("; histories of the live GP include the replacement of its whole data set (update_historical_data); query points and data arrays are also "
                "handed over in the forms of gpgen.HANDOVER_STYLES")
+
+# --- gap round B (seeded C02_m12, C02_m13): lives of the GP object
+LEVEL_NOTE += ("; the life of a live GP is a SEQUENCE of steps (appended lies, whole-data replacement - elsewhere, at the SAME locations with other values and other "
+               "noise variances, grown, shrunk, back to the first data set -, copies of its core data given other hyperparameters / more data and turned into a second GP, "
+               "also summed with the first), every entry point stated again after every step against the closed form of the model held THEN")
